@@ -182,6 +182,30 @@ def boundary_cases(rng):
     return out
 
 
+def long_cases(years=8):
+    """long, stiff, curve-limited runs: thousands of daily steps, hundreds of accepted sub-steps
+    each, so that the cumulative sub-step count of ONE Run call goes far beyond anything the
+    short cases reach (state carried across the whole call, e.g. counters, is exercised)"""
+    out = []
+    def series(n, phase=0, qscale=1.0):
+        rain, pet, inflow, demand = [], [], [], []
+        for t in range(n):
+            doy = (t + phase) % 365
+            season = 0.5 * (1 + math.sin(2 * math.pi * doy / 365))
+            inflow.append(qscale * (1 + 14 * season ** 2 + (120 if 80 < doy < 90 else 0)))
+            demand.append(qscale * 12 * (1 - season))
+            pet.append(2 + 5 * (1 - season))
+            rain.append(12 * season if t % 9 == 0 else 0.0)
+        return rain, pet, inflow, demand
+    n = years * 365
+    rain, pet, inflow, demand = series(n)
+    out.append(dict(kind='valid', long=True, style='irrigation-storage', regime='long-seasonal-%dy' % years, dt=86400., n=5,
+                    levels=[0., 4., 9., 15., 20.], volumes=[0., 2e6, 1e7, 3e7, 5e7], areas=[0., 4e5, 1.2e6, 2.6e6, 3.5e6],
+                    minrel=[0., 0., 0., 0., 150.], maxrel=[0., 3., 9., 16., 160.], v0=0., rain=rain, pet=pet, inflow=inflow,
+                    demand=demand, tmc=[0.0] * n))
+    return out
+
+
 def malformed_cases(rng, k):
     """model-vs-code only: degenerate tables, negative flows (agreed panics), odd nLVA"""
     out = []
@@ -467,6 +491,38 @@ def evaluate(c_check, cases, lines, want_samples=True):
     return stats
 
 
+def evaluate_long(c_check, cases, lines):
+    """long runs: oracle on the implementation's K-line outputs, correspondence on the K-line outputs
+    (full length, bit-exact), cumulative accepted sub-step count from the model (no trace printed)"""
+    import time as _t
+    t0 = _t.time(); impl, _ = run_impl_filtered(lines); t_impl = _t.time() - t0
+    t0 = _t.time(); km = run_model(['STORAGE_KCOUNT ' + l.split(' ', 2)[2] for l in lines], timeout=1800); t_model = _t.time() - t0
+    res = []
+    for i, (c, li, lk) in enumerate(zip(cases, impl, km)):
+        t = lk.split(' ', 3)
+        total, mx, lm = (int(t[1]), int(t[2]), t[3]) if len(t) == 4 and t[0] == 'KC' else (0, 0, lk)
+        ri, rm = parse_kresult(li), parse_kresult(lm)
+        diff = kresults_agree(ri, rm)
+        c_check.count(lines[i], nontrivial=total > len(c['rain']))
+        if diff:
+            c_check.corr_broken.append({'case': {'regime': c['regime'], 'timesteps': len(c['rain'])}, 'diff': diff,
+                                        'class': 'crash-unpredicted' if 'outcome' in diff else 'model-differs',
+                                        'impl': li[:200], 'line': lines[i][:2000] + ' ...'})
+        nviol = 0
+        if ri[0] == 'OK':
+            for (cls, detail) in oracle(c, ri, None):
+                nviol += 1
+                c_check.violation('oracle_%s_long%d.json' % (cls, i), {'kind': cls, 'detail': detail, 'case': describe(c),
+                                                                      'case_line': lines[i]}, key=cls)
+        elif rm[0] == 'OK':
+            c_check.violation('crash_long%d.json' % i, {'kind': 'crash-unpredicted', 'impl': li, 'case': describe(c),
+                                                       'case_line': lines[i]})
+        res.append({'regime': c['regime'], 'timesteps': len(c['rain']), 'cumulative_accepted_substeps_model': total,
+                    'max_substeps_in_one_step': mx, 'impl_outcome': ri[0], 'model_vs_code': diff or 'bit-exact (full length)',
+                    'oracle_failures': nviol})
+    return {'long_cases': res, 'long_cases_impl_seconds': round(t_impl, 2), 'long_cases_model_seconds': round(t_model, 2)}
+
+
 def main():
     if '--replay' in sys.argv:
         path = sys.argv[sys.argv.index('--replay') + 1]
@@ -498,6 +554,8 @@ def main():
     cases += malformed_cases(rng, 60 if quick else 600)
     lines = [case_line(x) for x in cases]
     stats = evaluate(c, cases, lines)
+    longs = long_cases(5) if quick else long_cases(5) + long_cases(8)
+    stats.update(evaluate_long(c, longs, [case_line(x) for x in longs]))
     if not quick and not c.proof_broken:
         # independent re-check of the compiled proofs with the stand-alone checker
         try:
@@ -515,7 +573,9 @@ def main():
                      'non-monotone / duplicate / negative volumes, negative inflow or demand, huge PET, crossed curves) compared '
                      'model-vs-code only; each case run through sim.Catalog["Storage"] and the extracted Coq model (bit-exact), '
                      'oracle on the Go outputs; non-trivial = distinct case where some time step needed more than one accepted '
-                     'sub-step, or spilled, or ended empty, or both sides panic')
+                     'sub-step, or spilled, or ended empty, or both sides panic; plus long stiff seasonal runs (5 years of daily steps in the quick tier, also 8 years in '
+                     'thorough: > 1e6 accepted sub-steps in ONE Run call, measured and recorded under long_cases) compared on the K-line outputs '
+                     'over the full length and checked with the balance / non-negativity / level-area / envelope oracle on the Go outputs')
     c.finish(extra_cov=dict(stats, exhaustive=False, comparison='bit-exact (only + - * / min max abs comparisons are used)'),
              assumptions=['theorems are over exact real arithmetic (RArith); float round-off is only tested: oracle tolerance 1e-9 relative to the volumes involved',
                           'single-cell parameter column layout (DeltaT, nLVA, 5 tables of nLVA rows); per-cell table lengths in multi-cell runs are covered by C04',
